@@ -1,12 +1,73 @@
 //go:build verif
 
-// placeholder: harness c19 is being written
+// Harness c19: guard-region differential for property C19 (no writes into caller buffers; keys,
+// handles and results share no memory with callers). See engine.go for the line format.
 package main
 
-import "github.com/tink-crypto/tink-go/v2/internal/verifharness/hlib"
+import (
+	"fmt"
+	"os"
+	"sort"
+	"strings"
+	"time"
+
+	"github.com/tink-crypto/tink-go/v2/internal/verifharness/hlib"
+	"github.com/tink-crypto/tink-go/v2/internal/verifharness/kslib"
+)
 
 func main() {
 	o := hlib.Open("c19")
 	defer o.Close()
-	o.Emit("B append 0102030405060708 1 2 4 aabb", "inplace 010203aabb060708 0203aabb", true)
+	seed := *hlib.FlagSeed
+	kslib.InstallDetRand(seed)
+	registerStubs()
+	e := newEngine(o)
+	only := *hlib.FlagMode // optional: comma separated section names
+	want := func(s string) bool { return only == "" || strings.Contains(","+only+",", ","+s+",") }
+	timed := func(name string, f func()) {
+		if !want(name) {
+			return
+		}
+		t0 := time.Now()
+		n0 := o.N
+		f()
+		o.Hist["section-lines:"+name] = o.N - n0
+		o.Hist["section-ms:"+name] = int(time.Since(t0).Milliseconds())
+		fmt.Fprintf(os.Stderr, "c19: section %-10s %6d lines %8.2fs\n", name, o.N-n0, time.Since(t0).Seconds())
+	}
+	timed("heap", func() { heapLines(o, seed) })
+	var pool *kslib.Pool
+	timed("pool-gen", func() { pool = kslib.BuildPool() })
+	if pool == nil {
+		pool = kslib.BuildPool()
+	}
+	timed("legacy", func() { e.sectionLegacy(seed) })
+	timed("subtle", func() { e.sectionSubtle(seed) })
+	timed("pool", func() { e.sectionPool(pool, seed) })
+	timed("full", func() { e.sectionFull(pool, seed) })
+	timed("keys", func() { e.sectionKeys(pool, seed) })
+	timed("keysets", func() { e.sectionKeysets(pool, seed) })
+
+	o.Hist["apis"] = len(e.apis)
+	o.Hist["apis-skipped"] = len(e.skipped)
+	o.Hist["dirty-api-kinds"] = len(e.dirty)
+	var ds []string
+	for k, n := range e.dirty {
+		ds = append(ds, fmt.Sprintf("%s x%d", k, n))
+	}
+	sort.Strings(ds)
+	for _, d := range ds {
+		fmt.Fprintln(os.Stderr, "c19: DIRTY", d)
+	}
+	var sk []string
+	for k, v := range e.skipped {
+		sk = append(sk, k+": "+v)
+	}
+	sort.Strings(sk)
+	for _, s := range sk {
+		fmt.Fprintln(os.Stderr, "c19: skipped", s)
+	}
+	for _, s := range pool.Skipped {
+		fmt.Fprintln(os.Stderr, "c19: pool skipped", s)
+	}
 }
